@@ -1,15 +1,16 @@
 (* Props/C03.v — property theorems only. *)
-From Coq Require Import List NArith ZArith.
+From Coq Require Import List NArith ZArith Bool.
 From N0 Require Import Base.PyStr Base.PyVal Xpath.Dec Xpath.DecProofs Xpath.Token Xpath.TokenProofs
-  Xpath.Find Xpath.FindProofs Xpath.Write Xpath.SpecProofs Xpath.WalkProofs Xpath.CreateProofs.
+  Xpath.Find Xpath.FindProofs Xpath.Write Xpath.SpecProofs Xpath.WalkProofs Xpath.TokenizeProofs Xpath.EnumProofs
+  Xpath.FstrProofs Xpath.CreateProofs Xpath.AppendProofs.
 Import ListNotations.
 
 (* d["P/n1/.../nk"] = v, where P spells an existing dictionary and n1 is a fresh name in it
    (n2..nk arbitrary names): exactly the missing chain is created — name steps become
    nested (n0-) dictionaries holding v at the end — and nothing is raised.
-   (partial: the name[new()], name[0], [new()] and [len] steps of the property's creation
-   grammar are covered by the correspondence check and the reference oracle only; see
-   DESIGN.md 5/C03.) *)
+   (partial with respect to the property's whole creation grammar: single list-creating steps
+   are the next two theorems; suffixes that combine several of them, and [len], are covered
+   by the correspondence check and the reference oracle only; see DESIGN.md 5/C03.) *)
 Theorem C03_creates_names_partial :
   forall fuel root x v toks p c kvs n1 ns,
   has_path_char x = true -> tokenize x = toks ++ n1 :: ns ->
@@ -34,6 +35,41 @@ Theorem C03_existing_nodes_unchanged : forall root p c kvs n1 X q u,
   resolve (replace_at root p (Dict c (update n1 X kvs))) q = Some u.
 Proof. exact creation_preserves. Qed.
 Print Assumptions C03_existing_nodes_unchanged.
+
+(* name[new()] (or name[0]) on a fresh name creates the list with exactly one element, v *)
+Theorem C03_creates_list :
+  forall fuel root x v toks p c kvs y n si,
+  has_path_char x = true -> tokenize x = toks ++ [y] ->
+  walk root toks p (Dict c kvs) ->
+  split_name_index y = Ok (n, IdxStr si) -> plain_key n -> si <> [] ->
+  pstr_eqb si s_new || pstr_eqb si s_zero = true ->
+  lookup n kvs = None ->
+  2 * length toks + 2 <= fuel ->
+  setitem_core fuel root x v = Ok (replace_at root p (Dict c (update n (Lst true [v]) kvs))).
+Proof. exact setitem_creates_list. Qed.
+Print Assumptions C03_creates_list.
+
+(* P[new()] on an existing list (reached through keys and indexes, a list nested in a list
+   included) appends exactly one element: the list grows by one, v is last, nothing else
+   changes.  Uses the found-path invariant: the resolver re-resolves xpath_found_str from
+   the root and reaches the same list. *)
+Theorem C03_new_appends :
+  forall fuel root x v toks p c items segs,
+  keys_good root ->
+  has_path_char x = true -> tokenize x = toks ++ [br s_new] ->
+  walks root toks p (Lst c items) segs -> toks <> [] ->
+  2 * length toks + 2 * length (seg_tokens segs) + 2 <= fuel ->
+  setitem_core fuel root x v = Ok (replace_at root p (Lst c (items ++ [v]))).
+Proof. exact setitem_appends. Qed.
+Print Assumptions C03_new_appends.
+
+Theorem C03_new_appends_nonvacuous :
+  keys_good ap_root /\
+  (exists toks p c items segs, tokenize ap_x = toks ++ [br s_new] /\ walks ap_root toks p (Lst c items) segs /\ toks <> []) /\
+  setitem_core (wfuel ap_x) ap_root ap_x (Leaf (SInt 7)) =
+  Ok (Dict true [([97]%N, Dict true [([108]%N, Lst true [Leaf (SInt 1); Leaf (SInt 7)])])]).
+Proof. exact append_example. Qed.
+Print Assumptions C03_new_appends_nonvacuous.
 
 Theorem C03_nonvacuous :
   setitem_core (wfuel cr_x) cr_root cr_x (Leaf (SInt 7)) =
